@@ -9,7 +9,7 @@ fn build() -> Vec<Box<dyn Property>> {
         let mut v: Vec<Box<dyn Property>> = vec![];
         for id in ["C10", "C11", "C12", "C13"] {
             for s in stages(id) {
-                if s.prop.stage() != "exhaustive" && s.prop.stage() != "all-indices" {
+                if !["exhaustive", "all-indices", "wide"].contains(&s.prop.stage()) {
                     v.push(s.prop);
                 }
             }
